@@ -1,8 +1,8 @@
 (* C13 — Variable types obey their domain laws.  Property theorems only. *)
 From Coq Require Import List ZArith Bool Permutation.
-From PV Require Import Xnum Select PyLib Argsort Vars Vars_proofs.
-From PVGen Require Import GenVars GenMultiVar.
-From PVBridge Require Import VarsBridge C13Main MultiVarBridge.
+From PV Require Import Xnum Select PyLib Argsort Labels Vars Vars_proofs.
+From PVGen Require Import GenVars GenMultiVar GenLabels GenHyper.
+From PVBridge Require Import VarsBridge C13Main MultiVarBridge LabelsBridge.
 
 Theorem C13_continuous : forall lo hi x, is_fin lo = true -> is_fin hi = true -> xltb lo hi = true -> non_nan x ->
   let y := gen_cont_correct lo hi x in
@@ -24,9 +24,40 @@ Theorem C13_permutation : forall (v : list xnum) (pi : list nat), valid_argsort 
   (forall pi', valid_argsort xltb XNaN (nats_x r) pi' -> gen_perm_correct (nats_x r) pi' = r).
 Proof. exact perm_laws. Qed.
 
-Theorem C13_permutation_decode : forall L (inverse_transform : list nat -> list L) v pi,
-  gen_perm_decode L inverse_transform v pi = inverse_transform (gen_perm_correct v pi).
-Proof. exact perm_decode_law. Qed.
+(* decode of a permutation variable, end to end over the REGENERATED LabelEncoder (fit, transform) and PermutationVariable (__init__'s label table, decode):
+   for EVERY list of declared items - repeated ones included - and every raw value, the decoded value is a rearrangement of the declared items, entry j
+   being the label whose index is correct(value)[j] *)
+Theorem C13_permutation_decode : forall L (eqb leb : L -> L -> bool) (unknown : L) (items : list L) v pi,
+  (forall x y, eqb x y = true <-> x = y) -> length v = length items -> valid_argsort xltb XNaN v pi ->
+  exists labels out, gen_perm_labels L (fitted_transform L eqb leb items) items = Some labels /\ Permutation labels items /\
+    gen_perm_decode L labels v pi = Some out /\ Permutation out items /\ length out = length v /\
+    (forall j, j < length v -> nth j out unknown = nth (nth j (gen_perm_correct v pi) 0) labels unknown).
+Proof. intros L eqb leb unknown items v pi H. exact (perm_decode_rearranges_gen L eqb leb unknown H items v pi). Qed.
+(* for pairwise distinct items the label table is the encoder's own label list (decode returns what inverse_transform of the corrected value returns) *)
+Theorem C13_permutation_labels_distinct : forall L (eqb leb : L -> L -> bool) (unknown : L) (items : list L),
+  (forall x y, eqb x y = true <-> x = y) -> (forall a b, leb a b = true \/ leb b a = true) -> NoDup items ->
+  gen_perm_labels L (fitted_transform L eqb leb items) items = Some (gen_le_fit_labels L eqb leb items).
+Proof. intros L eqb leb unknown items H. exact (perm_labels_distinct_gen L eqb leb unknown H items). Qed.
+(* why decode must not go through the encoder alone (the pinned tree did, until the fix recorded in known_findings.json): the encoder keeps one label per DISTINCT item, so with repeated
+   items an index has no label and "unknown" - not a declared item - comes back *)
+Theorem C13_encoder_decode_duplicates_refuted :
+  exists (items : list nat) (r : list nat) (out : list nat),
+    Permutation r (seq 0 (length items)) /\
+    perm_decode nat Nat.eqb Nat.leb 99 items r = Some out /\ In 99 out /\ ~ In 99 items /\ ~ Permutation out items.
+Proof. exact perm_decode_duplicates_refuted. Qed.
+(* the rest of the encoder, pinned: both fields unset per instance by the constructor (no class-level table shared between encoders), assigned by __init__ / fit
+   only; PermutationVariable's encoder and label table assigned in its __init__ only *)
+Theorem C13_label_encoder_shape : gen_label_encoder_shape = true.
+Proof. reflexivity. Qed.
+Theorem C13_label_encoder_regenerated : forall L (eqb leb : L -> L -> bool) (unknown : L),
+  (forall y, gen_le_fit_labels L eqb leb y = fit_labels L eqb leb y) /\
+  (forall y labels, gen_le_fit_index L eqb y labels = fit_index L eqb labels) /\
+  (forall labels index y, gen_le_transform L eqb (Some labels) index y = transform L eqb index y) /\
+  (forall labels index y, gen_le_inverse_transform L unknown (Some labels) index y = inverse_transform L unknown labels index y) /\
+  (forall index y, gen_le_transform L eqb None index y = None) /\ (forall index y, gen_le_inverse_transform L unknown None index y = None).
+Proof.
+  intros L eqb leb unknown. repeat split; intros; reflexivity.
+Qed.
 
 Theorem C13_validators :
   (forall lo hi, gen_cont_validate lo hi = None <-> xleb hi lo = true) /\
@@ -65,6 +96,10 @@ Print Assumptions C13_continuous.
 Print Assumptions C13_discrete.
 Print Assumptions C13_permutation.
 Print Assumptions C13_permutation_decode.
+Print Assumptions C13_permutation_labels_distinct.
+Print Assumptions C13_encoder_decode_duplicates_refuted.
+Print Assumptions C13_label_encoder_regenerated.
+Print Assumptions C13_label_encoder_shape.
 Print Assumptions C13_validators.
 Print Assumptions C13_correct_in_dom.
 Print Assumptions C13_correct_fix.
